@@ -62,3 +62,8 @@ func (g *guarded) tail(n int) []byte {
 }
 
 func (g *guarded) free() { syscall.Munmap(g.mem) }
+
+// unsafeBytes views a string's bytes (read-only use).
+func unsafeBytes(s string) []byte {
+	return unsafe.Slice(unsafe.StringData(s), len(s))
+}
